@@ -73,7 +73,7 @@ def one_case(args):
         preset.append({'m': 'set', 'now': 1000, 'k': 'n', 'v': 5, 'ttl': None, 'tag': None})
     programs = {c: gen_program(rng, rng.randint(1, 2 if n_clients == 3 else 3)) for c in range(n_clients)}
     shared = rng.random() < 0.4
-    bound, n_rand = (14, 4) if tier == 'quick' else (40, 30)
+    bound, n_rand = (14, 4) if tier == 'quick' else (24, 12)
     results = []
     for sch in schedules_for(rng, n_clients, bound, n_rand):
         run = conc.run_concurrent(cfg, preset, programs, sch, shared=shared)
@@ -86,7 +86,7 @@ def one_case(args):
 
 
 def run(tier, seed, rng, known, replay):
-    n_cases = 48 if tier == 'quick' else 600
+    n_cases = 48 if tier == 'quick' else 160
     if replay:
         import json
         with open(replay) as f:
